@@ -31,6 +31,9 @@ type traffic struct {
 // failRequest asks the echo handler to return an error status.
 var failRequest = []byte("\xeefail-request")
 
+// holdRequest (prefix of an rpc payload) asks the rpc echo handler to answer 15 ms late.
+var holdRequest = []byte("\xeehold")
+
 func mpxEcho(ctx mpx.Context, ch mpx.Channel) status.Status {
 	for {
 		data, st := ch.Receive(ctx)
@@ -56,6 +59,14 @@ func rpcEcho(ctx rpc.Context, ch rpc.ServerChannel) (ref.R[[]byte], status.Statu
 	}
 	call := req.Calls().Get(0)
 	in := call.Input()
+	if bytes.HasPrefix(in.Bytes(1), holdRequest) {
+		// answer late: the caller frees its call while its Response is still pending
+		select {
+		case <-time.After(15 * time.Millisecond):
+		case <-ctx.Wait():
+			return nil, ctx.Status()
+		}
+	}
 
 	buf := alloc.AcquireBuffer()
 	ok := false
@@ -250,6 +261,14 @@ func (t *traffic) rpcCaller(id int, payloads [][]byte, timeout time.Duration) (t
 	method := fmt.Sprintf("echo%d", id)
 	for k, p := range payloads {
 		seq := int64(id)<<32 | int64(k)
+		if k%3 == 1 {
+			// a call whose owner frees it while another goroutine still waits for its response: the
+			// call state is reference counted and must not be recycled under the waiter; the calls
+			// that follow must see nothing of it
+			if tok := t.rpcFreedPending(ctx, method, seq); tok != "ok" {
+				return fmt.Sprintf("freed-pending[%d]:%s", k, tok)
+			}
+		}
 		tok := func() string {
 			req := rpc.NewRequest()
 			defer req.Free()
@@ -286,6 +305,49 @@ func (t *traffic) rpcCaller(id int, payloads [][]byte, timeout time.Duration) (t
 		}
 	}
 	return "ok"
+}
+
+// rpcFreedPending opens a call to the late-answering handler, lets a goroutine wait for the
+// response and frees the call 2 ms later.
+func (t *traffic) rpcFreedPending(ctx async.Context, method string, seq int64) (tok string) {
+	req := rpc.NewRequest()
+	defer req.Free()
+	call := req.Add(method)
+	in := call.Input()
+	in.Field(1).Bytes(holdRequest)
+	in.Field(2).Int64(seq)
+	if err := in.End(); err != nil {
+		return "build"
+	}
+	if err := call.End(); err != nil {
+		return "build"
+	}
+	preq, st := req.Build()
+	if !st.OK() {
+		return "build"
+	}
+	ch, st := t.rcli.Channel(ctx, preq)
+	if !st.OK() {
+		return "channel:" + string(st.Code)
+	}
+	done := make(chan string, 1)
+	go func() {
+		defer func() {
+			if e := recover(); e != nil {
+				done <- "panic-in-pending-response:" + token(fmt.Sprint(e), 60)
+			}
+		}()
+		ch.Response(ctx)
+		done <- "ok"
+	}()
+	time.Sleep(2 * time.Millisecond)
+	ch.Free()
+	select {
+	case tok := <-done:
+		return tok
+	case <-time.After(10 * time.Second):
+		return "pending-response-never-returned"
+	}
 }
 
 // burst runs the plan: every mpx channel and every rpc caller in its own goroutine. It returns
